@@ -5,5 +5,5 @@ CONSTANTS
   XN = {"x"}
   Missing = "zz"
   FX = {"", "zz"}
-INVARIANTS InvCheckExact InvCheckCount InvCheckAllowed
+INVARIANTS InvCheckExact InvCheckCount InvCheckAllowed InvCheckBlame
 CHECK_DEADLOCK FALSE
